@@ -4,6 +4,7 @@ import (
 	"bytes"
 	"encoding/hex"
 	"fmt"
+	"github.com/nspcc-dev/neo-go/pkg/core/transaction"
 
 	"github.com/nspcc-dev/neo-go/pkg/vm/stackitem"
 
@@ -38,6 +39,9 @@ const (
 	cOtherNodeAlpha
 	cNodeMajority
 	cNobody
+	cNodeNoneAlpha   // the node signs with scope None (it only pays), the Alphabet with Global
+	cNodeAlphaNone   // the other way round
+	cNodeCustomAlpha // the node's signature is restricted to another contract
 )
 
 func (e *env) nodeSigners(combo int, node int) ([]world.SignerSpec, bool, bool, string) {
@@ -56,6 +60,13 @@ func (e *env) nodeSigners(combo int, node int) ([]world.SignerSpec, bool, bool, 
 		return []world.SignerSpec{world.G(other.signer), world.G(e.w.Alphabet)}, false, true, "othernode+alphabet"
 	case cNodeMajority:
 		return []world.SignerSpec{world.G(nk.signer), world.G(e.w.Majority)}, true, majIsAlpha, "node+majority"
+	case cNodeNoneAlpha:
+		// a signature that does not reach the call is no witness (seeded change C07-11)
+		return []world.SignerSpec{world.Scoped(nk.signer, transaction.None), world.G(e.w.Alphabet)}, false, true, "node(scope None)+alphabet"
+	case cNodeAlphaNone:
+		return []world.SignerSpec{world.G(nk.signer), world.Scoped(e.w.Alphabet, transaction.None)}, true, false, "node+alphabet(scope None)"
+	case cNodeCustomAlpha:
+		return []world.SignerSpec{world.Scoped(nk.signer, transaction.CustomContracts, e.w.GAS), world.G(e.w.Alphabet)}, false, true, "node(scoped to GAS)+alphabet"
 	}
 	return nil, false, false, "nobody"
 }
@@ -81,7 +92,7 @@ func (e *env) pickCombo(honest int) int {
 	if e.b.Rng.IntN(10) < honest {
 		return cNodeAlpha
 	}
-	return runner.Pick(e.b.Rng, []int{cNodeOnly, cAlphaOnly, cOtherNodeAlpha, cNodeMajority, cNobody})
+	return runner.Pick(e.b.Rng, []int{cNodeOnly, cAlphaOnly, cOtherNodeAlpha, cNodeMajority, cNobody, cNodeNoneAlpha, cNodeAlphaNone, cNodeCustomAlpha})
 }
 
 func (e *env) pickAlpha(honest int) int {
